@@ -3657,3 +3657,62 @@ func runSpillKeyOrderTotal(c *Ctx, rule string) {
 		c.Fail(rule, "runtime/sam/op/groupby.NewAggregator spill comparator", fn.Pos(), "spilled rows are ordered and matched by key value only: numerically equal keys of different types tie, so `count() by k` over 1, 1(uint64) and 1. returns three groups in memory and one group (count 5) once the table spills")
 	}
 }
+
+// ---- C16-C2: a relative comparison of two expressions looks at both of them.
+//
+// `'c' <= k` (literal on the left) is evaluated by Compare.Eval while the pruner derived from
+// the same predicate uses the value order.  The two agree only if every type-specific branch of
+// Compare.Eval compares the left operand with the right operand.
+func runCompareUsesBothOperands(c *Ctx, rule string) {
+	p := c.P
+	c.Rule(rule, "in (*expr.Compare).Eval every non-constant ordering handed to Compare.result is computed from the value of the left operand and from the value of the right operand: a branch that compares an operand with itself makes `lit <= key` true for every key of that type while the pruner, which uses the value order, still skips objects")
+	fn := p.Func("(*runtime/sam/expr.Compare).Eval")
+	if fn == nil {
+		c.Undecided(rule, "(*runtime/sam/expr.Compare).Eval", "anchor does not resolve")
+		return
+	}
+	var lhs, rhs ssa.Value
+	for _, ci := range allCalls(fn) {
+		cc := ci.Common()
+		if !cc.IsInvoke() || cc.Method.Name() != "Eval" {
+			continue
+		}
+		switch {
+		case strings.HasSuffix(fieldPath(cc.Value), ".lhs"):
+			lhs, _ = ci.(ssa.Value)
+		case strings.HasSuffix(fieldPath(cc.Value), ".rhs"):
+			rhs, _ = ci.(ssa.Value)
+		}
+	}
+	if lhs == nil || rhs == nil {
+		c.Undecided(rule, "(*runtime/sam/expr.Compare).Eval", "the evaluations of the lhs and rhs operands were not found")
+		return
+	}
+	n := 0
+	for _, ci := range allCalls(fn) {
+		if calleeName(ci.Common()) != "(*runtime/sam/expr.Compare).result" {
+			continue
+		}
+		arg := ci.Common().Args[len(ci.Common().Args)-1]
+		if _, isConst := arg.(*ssa.Const); isConst {
+			continue
+		}
+		n++
+		l := dependsOn(arg, func(v ssa.Value) bool { return v == lhs })
+		r := dependsOn(arg, func(v ssa.Value) bool { return v == rhs })
+		if l && r {
+			continue
+		}
+		side := "right"
+		if !l {
+			side = "left"
+		}
+		c.Fail(rule, "(*runtime/sam/expr.Compare).Eval ordering ignores the "+side+" operand", ci.Pos(), "the ordering passed to Compare.result here does not depend on the "+side+" operand: for this type `a <= b` is decided without looking at one side (a string compared with itself is always equal), so `'c' <= k` accepts every key while the range pruner derived from it skips the objects below 'c' - the pruned query returns fewer rows than a full scan with the same filter")
+	}
+	switch {
+	case n < 2:
+		c.Undecided(rule, "(*runtime/sam/expr.Compare).Eval", "fewer than two type-specific orderings found ("+sprint(n)+")")
+	default:
+		c.OK(rule, "(*runtime/sam/expr.Compare).Eval orderings", fn.Pos(), sprint(n)+" type-specific orderings, each computed from both operands")
+	}
+}
